@@ -25,11 +25,11 @@ SHRINK_RUNS = 8
 TIME_BUDGET = {'quick': 170, 'thorough': 1700}
 CHILD = ['coop', 'swallow', 'idle_p', 'busy_p', 'finished', 'p_in_ctx', 'empty_ctx', 'dup_ctx', 'starting', 'swallow_in_ctx', 'busy_in_ctx']
 REQUIRED = {'quick': {'child:' + c: 15 for c in CHILD}, 'thorough': {'child:' + c: 150 for c in CHILD}}
-REQUIRED['quick'].update({'stop:sigterm': 40, 'stop:terminate': 40, 'stop:terminate_noforce': 15, 'live_children>=2': 40})
+REQUIRED['quick'].update({'stop:sigterm': 40, 'stop:terminate': 40, 'stop:terminate_noforce': 15, 'live_children>=2': 40, 'stop:terminate_short': 15, 'sigterm_during_shutdown': 8})
 
 
 def examples(tier):
-    return 220 if tier == 'quick' else 2400
+    return 400 if tier == 'quick' else 3000
 
 
 def shards(tier):
@@ -39,7 +39,10 @@ def shards(tier):
 def strategy(tier):
     return st.fixed_dictionaries({
         'children': st.lists(st.sampled_from(CHILD), max_size=4),
-        'stop': st.sampled_from(['terminate', 'terminate', 'sigterm', 'sigterm', 'terminate_noforce']),
+        # terminate_short: the force stage of terminate() SIGTERMs the server while it is still stopping its children one by one;
+        # terminate_then_sigterm: an impatient supervisor does the same after a generated delay
+        'stop': st.sampled_from(['terminate', 'terminate', 'sigterm', 'sigterm', 'terminate_noforce', 'terminate_short', 'terminate_then_sigterm']),
+        'sigterm_after': st.sampled_from([0.01, 0.03, 0.1, 0.3, 0.7, 1.2]),
         'delay': st.sampled_from([0, 0.05, 0.5]),
     })
 
@@ -142,6 +145,28 @@ def run_case(case, ctx):
                 out.viol('server_terminate_blocked', site, 'server.terminate(timeout=10) did not return within 40 s')
             except BaseException as e:
                 out.viol('server_terminate_raised:' + type(e).__name__, site, str(e)[:150])
+        elif case['stop'] == 'terminate_short':
+            try:
+                bounded(srv.terminate, 40, timeout=0.5)
+            except Blocked:
+                out.viol('server_terminate_blocked', site, 'server.terminate(timeout=0.5) did not return within 40 s')
+            except BaseException as e:
+                out.viol('server_terminate_raised:' + type(e).__name__, site, str(e)[:150])
+        elif case['stop'] == 'terminate_then_sigterm':
+            import threading
+            spid = srv.pid
+            th_ = threading.Thread(target=lambda: bounded(srv.terminate, 40, timeout=10), daemon=True)
+            th_.start()
+            time.sleep(case.get('sigterm_after', 0.3))
+            if pid_alive(spid):
+                out.label('sigterm_during_shutdown')
+                try:
+                    os.kill(spid, signal.SIGTERM)
+                except ProcessLookupError:
+                    pass
+            th_.join(45)
+            if th_.is_alive():
+                out.viol('server_terminate_blocked', site, 'server.terminate(timeout=10) did not return within 45 s')
         else:
             os.kill(srv.pid, signal.SIGTERM)
         # ---- processes
